@@ -74,6 +74,9 @@ inline vj::value elem_value(const E& x) {
     else return vj::value((long long)x);
 }
 
+// numeric value of a projected element (integers travel as integers, other reals as "f:<value>" tokens)
+inline double elem_to_double(const vj::value& e) { return e.is_str() ? strtod(e.as_str().c_str() + 2, nullptr) : e.as_dbl(); }
+
 // projection of an array-like / view / num / maybe<...>
 template <class V>
 inline vj::value project(const V& v) {
